@@ -53,6 +53,11 @@ def generate(tier, seed):
             mb = lambda: "".join(rng.choice(["é", "λ", "ü", "😀", "a", "中", "ß"]) for _ in range(rng.randint(0, 70)))
             core = "(list \"%s\" '%s (progn %s) \"%s\" '(%s))" % (mb(), "sym-" + mb().replace("😀", "x") + "z", core, mb(), " ".join("é%d" % i for i in range(rng.randint(0, 30))))
         if rng.random() < 0.4:
+            import re as _re2
+            wrapk = lambda m: rng.choice(["(traced %s)", "(-> %s)", "(maybe-log nil %s)", "(progn-m %s)", "%s", "%s"]) % m.group(0)
+            core = _re2.sub(r"\(tick \d+\)", wrapk, core)
+            pre = (pre + " " if pre else "") + "(defmacro traced (form) form) (defmacro maybe-log (c form) (if c (list 'progn form) form)) (defmacro progn-m (&rest fs) (cons 'progn fs))"
+        if rng.random() < 0.4:
             # some calls written with a dotted tail: (tick 3 . nil), (list a . (b)), '(k . v) handed to an operation that fails on it
             import re as _re
             core = _re.sub(r"\(tick (\d+)\)", lambda m: ("(tick %s . nil)" % m.group(1)) if rng.random() < 0.3 else m.group(0), core)
